@@ -498,6 +498,15 @@ def int_justified(ctx, q, f, c):
         if isinstance(n, ast.Try) and any(h.type is not None and "ValueError" in ast.unparse(h.type) for h in n.handlers):
             return True, "guarded by except ValueError"
     j = INT_JUSTIFY.get(q)
+    if q == "RegexMatch._repeat_count":
+        # the converter of repetition counts: its parameter's text is converted; every caller hands it a child of a repeat node that the grammar makes a NUMBER token
+        param = f.args.args[1].arg if len(f.args.args) == 2 else None
+        callers = [(cq, cc) for cq, cf in model.functions.items() for cc in ast.walk(cf) if isinstance(cc, ast.Call) and ast.unparse(cc.func) == "self._repeat_count"]
+        jj = INT_JUSTIFY["RegexMatch._interpret_parse_tree"]
+        allowed = {f"regex_tree.children[{i}]" for idxs in jj[1].values() for i in idxs}
+        ok = arg == f"{param}.value" and callers and all(cq == "RegexMatch._interpret_parse_tree" and len(cc.args) == 1 and ast.unparse(cc.args[0]) in allowed for cq, cc in callers) and \
+            all(g.child_at(label, i) == {"TOKEN:" + jj[2]} for label, idxs in jj[1].items() for i in idxs if label in g.labels_made)
+        return bool(ok), f"argument is the text of the {jj[2]} token every caller passes ({len(callers)} call sites in _interpret_parse_tree)"
     if j is not None and j[0] == "grammar":
         okall = True
         for label, idxs in j[1].items():
